@@ -288,6 +288,8 @@ pub fn c03(a: &Analysis) -> Vec<Violation> {
         }
         let touched = a.rec.sc.script.iter().any(|e| match e {
             Entry::Fault { src, dst, .. } | Entry::Blackout { src, dst, .. } | Entry::Inject { src, dst, .. } => (*src == p.src && *dst == p.dst) || (*src == p.dst && *dst == p.src),
+            // a transfer issued long after a crashed entity was restarted ("canarylate") is owed service
+            Entry::Crash { ent, .. } if p.src_name.starts_with("canarylate") && a.rec.sc.script.iter().any(|r| matches!(r, Entry::Restart { ent: re, .. } if re == ent)) => false,
             Entry::Stall { ent, .. } | Entry::Crash { ent, .. } | Entry::FsFault { ent, .. } => *ent == p.src || *ent == p.dst,
             Entry::ClockJump { .. } => true,
             _ => false,
@@ -312,6 +314,12 @@ pub fn c03(a: &Analysis) -> Vec<Violation> {
             }
             let ex = exemptions(a, t, side, ent);
             if ex.suspended_by_user || ex.ignore_or_suspend_handler {
+                continue;
+            }
+            // a transaction that existed at an entity when its process died went with it (and what a
+            // restarted entity builds under the same id from later PDUs is mixed into this record)
+            let first_seq = side.inds.first().map(|i| i.seq).into_iter().chain(side.sent.first().map(|s| s.seq)).chain(side.recvd.first().map(|r| r.seq)).min().unwrap_or(0);
+            if a.rec.events.iter().any(|e| matches!(&e.k, EvKind::Crash { ent: ce } if *ce == ent) && e.seq > first_seq) {
                 continue;
             }
             // last thing that legitimately (re)started activity at this entity for this txn
